@@ -107,8 +107,18 @@ type gatedQuery struct {
 	e *env
 }
 
+// ActiveLeasesForProvider returns the leases the script says the provider holds when it starts.
 func (g *gatedQuery) ActiveLeasesForProvider(id sdk.AccAddress) ([]mtypes.QueryLeaseResponse, error) {
-	return nil, nil
+	var out []mtypes.QueryLeaseResponse
+	for _, l := range g.e.pre {
+		out = append(out, mtypes.QueryLeaseResponse{Lease: mtypes.Lease{LeaseID: g.e.leaseID(l), State: mtypes.LeaseActive,
+			Price: sdk.NewInt64Coin("uakt", 111)}})
+	}
+	return out, nil
+}
+
+func (g *gatedQuery) Group(ctx context.Context, in *dtypes.QueryGroupRequest, _ ...grpc.CallOption) (*dtypes.QueryGroupResponse, error) {
+	return &dtypes.QueryGroupResponse{Group: dtypes.Group{GroupID: in.ID, GroupSpec: *g.e.fx.groups[0]}}, nil
 }
 
 func (g *gatedQuery) Deployment(ctx context.Context, in *dtypes.QueryDeploymentRequest, _ ...grpc.CallOption) (*dtypes.QueryDeploymentResponse, error) {
@@ -137,12 +147,32 @@ func (g *gatedQuery) Deployment(ctx context.Context, in *dtypes.QueryDeploymentR
 type scriptedHostnames struct {
 	mu    sync.Mutex
 	calls int
+	held  int
+	hold  chan struct{} // probe only: answers are withheld until it is closed
+}
+
+func (h *scriptedHostnames) waiting() int {
+	h.mu.Lock()
+	defer h.mu.Unlock()
+	return h.held
 }
 
 func (h *scriptedHostnames) answer(hostnames []string) <-chan error {
 	h.mu.Lock()
 	h.calls++
+	hold := h.hold
+	if hold != nil {
+		h.held++
+	}
 	h.mu.Unlock()
+	if hold != nil {
+		out := make(chan error, 1)
+		go func() {
+			<-hold
+			out <- nil
+		}()
+		return out
+	}
 	ch := make(chan error, 1)
 	for _, hn := range hostnames {
 		if hn == takenHost {
@@ -183,6 +213,7 @@ type env struct {
 	svc    pmanifest.Service
 	cancel context.CancelFunc
 	hosts  *scriptedHostnames
+	pre    []int // leases held when the provider starts (fetchExistingLeases)
 
 	hooks          chan veriftrace.Event
 	overflow       bool
@@ -203,8 +234,9 @@ func addr(seed string) sdk.AccAddress {
 	return sdk.AccAddress(h[:20])
 }
 
-func newEnv(fx *fixtures, n int, cfg pmanifest.ServiceConfig) (*env, error) {
+func newEnv(fx *fixtures, n int, cfg pmanifest.ServiceConfig, pre ...int) (*env, error) {
 	e := &env{
+		pre:            pre,
 		fx:             fx,
 		owner:          addr("owner-" + strconv.Itoa(n)).String(),
 		prov:           addr("provider-" + strconv.Itoa(n)),
@@ -344,6 +376,11 @@ func (e *env) close(wait time.Duration) bool {
 	}
 	curMu.Unlock()
 	return ok
+}
+
+func ctxTimeout(d time.Duration) context.Context {
+	ctx, _ := context.WithTimeout(context.Background(), d) // nolint: govet
+	return ctx
 }
 
 func vhashOf(m *manifest.Manifest) string {
